@@ -38,8 +38,9 @@ func (o *ObjectRangeRequest) Range(size int64) (*ObjectRange, error) {
 		start = o.Start
 		end := o.End
 
-		if o.End == RangeNoEnd {
-			// If no end is specified, range extends to end of the file.
+		if o.End == RangeNoEnd || o.End >= size {
+			// If no end is specified, or it lies beyond the last byte, the
+			// range extends to the end of the file.
 			length = size - start
 		} else {
 			length = end - start + 1
@@ -57,7 +58,7 @@ func (o *ObjectRangeRequest) Range(size int64) (*ObjectRange, error) {
 		return nil, ErrInvalidRange
 	}
 
-	if start+length > size {
+	if length > size-start {
 		return &ObjectRange{Start: start, Length: size - start}, nil
 	}
 
